@@ -36,6 +36,10 @@ PROBES = [
      'void out_l(long);\nstruct S { signed char a : 3; signed char f : 5; } s;\nstruct U { unsigned char a : 3; unsigned char f : 5; } u;\n'
      'struct H { unsigned short a : 3; unsigned short f : 13; } h;\nint main(void)\n{\n\tint y = (s.f = 100);\n\tout_l(y);\n\tout_l(s.f);\n'
      '\ty = (u.f = 100);\n\tout_l(y);\n\ty = (h.f = 78192);\n\tout_l(y);\n\tout_l(u.f += 100);\n\tout_l(++u.f);\n\treturn 0;\n}\n'),
+    ('vla-typedef-size-first-use', 'the size of a VLA typedef is evaluated where the typedef is declared (6.7.8p3), not at its first use',
+     'void out_l(long);\nlong fl(int n, int c)\n{\n\ttypedef int T[n];\n\tlong r = 0;\n\tif (c) {\n\t\tT a;\n\t\ta[0] = 1;\n\t\tr += sizeof a + a[0];\n\t}\n'
+     '\tT b;\n\tb[n - 1] = 2;\n\tr += sizeof b + b[n - 1];\n\treturn r;\n}\nlong h(int n)\n{\n\ttypedef int T[n];\n\tn = 100;\n\tT x;\n\tx[0] = 5;\n\treturn sizeof x + x[0];\n}\n'
+     'int main(void)\n{\n\tout_l(fl(3, 0));\n\tout_l(fl(3, 1));\n\tout_l(h(3));\n\treturn 0;\n}\n'),
     (K_COPY_PACKED, 'assignment of a packed struct with an _Alignas member (size 5, alignment 4) copies 8 bytes: access beyond both objects',
      'void out_l(long);\nstruct __attribute__((packed)) P { _Alignas(4) int a; char b; };\nstruct P g1 = { 7, 8 }, g2;\n'
      'int main(void)\n{\n\tstruct P *p = &g2, *q = &g1;\n\t*p = *q;\n\tout_l(g2.a);\n\tout_l(g2.b);\n\treturn 0;\n}\n'),
